@@ -550,6 +550,38 @@ def check_wire(rep, prog):
                 if f in rec.get('fields', []):
                     counts[f] = counts.get(f, 0) + 1
         what = 'serialize() of %s archives every data member exactly once' % rec['g'].split('::')[-1]
+        # split save()/load() members (BOOST_SERIALIZATION_SPLIT_MEMBER): the generated serialize() only dispatches
+        split = [g_ for g_ in prog.functions if g_.j.get('rec_id') == fn.j.get('rec_id') and g_.fref['name'] in ('save', 'load') and not g_.implicit and g_.body is not None]
+        if {g_.fref['name'] for g_ in split} == {'save', 'load'} and not counts:
+            for g_ in split:
+                gc = {}
+                probs = []
+                for d in g_.walk():
+                    if d.k == 'CXXOperatorCallExpr' and d.op in ('&', '<<', '>>') and len(d.c) == 3:
+                        f = ex.var_of(d.c[2])
+                        if f in rec.get('fields', []):
+                            gc[f] = gc.get(f, 0) + 1
+                        # make_array(field.data(), n)
+                        for x in d.c[2].walk():
+                            if x.k == 'CXXMemberCallExpr' and x.callee and x.callee['name'] == 'data' and ex.var_of(x.object_arg()) in rec.get('fields', []):
+                                fld = ex.var_of(x.object_arg())
+                                gc[fld] = gc.get(fld, 0) + 1
+                                if g_.fref['name'] == 'load':
+                                    # the container must be given its new length on every path, also for an empty incoming block
+                                    rs = [y for y in g_.walk() if y.k == 'CXXMemberCallExpr' and y.callee and y.callee['name'] in ('resize', 'assign', 'clear') and ex.var_of(y.object_arg()) == fld]
+                                    gcfg = g_.cfg
+                                    if not any(gcfg.pos_of(y) and gcfg.block_postdominates(gcfg.pos_of(y)[0], gcfg.entry) for y in rs):
+                                        probs.append('load() re-sizes `%s` only on some paths: when the incoming vector is empty (or the guard fails) the old contents stay, '
+                                                     'a reused object keeps stale coordinates' % prog.vars[fld]['name'])
+                whatg = '%s() of %s handles every data member exactly once, on every path' % (g_.fref['name'], rec['g'].split('::')[-1])
+                miss = [prog.vars[f]['name'] for f in rec.get('fields', []) if gc.get(f, 0) == 0]
+                if miss:
+                    probs.append('not archived: %s' % miss)
+                if probs:
+                    rep.violation('R04f', g_.body, g_, whatg, '; '.join(probs), key='R04f|%s|%s' % (rec['g'], g_.fref['name']))
+                else:
+                    rep.ok('R04f', g_.body, g_, whatg, '%d member(s)' % len(rec.get('fields', [])))
+            continue
         missing = [prog.vars[f]['name'] for f in rec.get('fields', []) if counts.get(f, 0) == 0]
         twice = [prog.vars[f]['name'] for f in rec.get('fields', []) if counts.get(f, 0) > 1]
         if missing or twice:
